@@ -11,6 +11,7 @@ WF_PRES = 'final(self).wf()'
 
 def build():
     U = Unit('SYM', props=['C19', 'C07'])
+    U.tag_loops = True     # loop invariants state property-relevant facts about abstractions: a failing one is reported
     t = U.file(T)
     for k, n in [('enum', 'IsConst'), ('type', 'Width'), ('enum', 'ArrayDims'), ('struct', 'SubroutineDef'), ('enum', 'Type')]:
         t.item(k, n)
@@ -140,8 +141,8 @@ ensures
 ''', loops={1: ('it', '''invariant
     self.wf(),
     it.seq().len() == self.scope_symbol_table_stack@.len(),
-    forall|j: int| 0 <= j < it.seq().len() ==> *#[trigger] it.seq()[j] == self.scope_symbol_table_stack@[self.scope_symbol_table_stack@.len() - 1 - j],
-    resolve(self.scopes(), name@) == resolve(self.scopes().take(self.scope_symbol_table_stack@.len() - it.index()), name@),''')},
+    forall|j: int| 0 <= j < it.seq().len() ==> *#[trigger] it.seq()[j] == self.scope_symbol_table_stack@[self.scope_symbol_table_stack@.len() - 1 - j],    //@C19,C07:scopes-walked-innermost-first
+    resolve(self.scopes(), name@) == resolve(self.scopes().take(self.scope_symbol_table_stack@.len() - it.index()), name@),    //@C19,C07:lookup-innermost''')},
             ghost=[('for table in', 'before', 'proof { assert(self.scopes().take(self.scopes().len() as int) =~= self.scopes()); }'),
                    ('if let Some(symbol_id) = table.get_symbol_id(name) {', 'before', '''proof {
     let k = self.scope_symbol_table_stack@.len() - it.index();
